@@ -9,7 +9,8 @@ EXTENDS BcjSamples, Delta, SimpleCoder, TLC, Json, IOUtils
 
 CONSTANTS NSamples,        \* pseudo-random samples per architecture and direction
           PairMs,          \* most-significant bytes used in the hand-made x86 opcode pairs
-          DeltaDists, DeltaLens
+          DeltaDists, DeltaLens,
+          NReuse           \* coder-reuse sessions per architecture and direction
 
 Seed == atoi(IOEnv.SEED) % 30011
 
@@ -29,6 +30,34 @@ OneShotJob(a, e, j) ==
 PairJob(e, d, m1, m2, op2, fill) ==
     [kind |-> "S", arch |-> "x86", enc |-> e, off |-> U32((Seed * 16 + d * 4096) % 60000), pair |-> <<d, 232, op2, m1, m2, fill>>, pre |-> FALSE]
 InitOffs(a) == LET al == Alignment(a) IN {U32(0), U32(al), U32(al + 1), U32(1), U32(al \div 2), H32(\h8000, al \div 2), H32(\hFFFF, 65536 - al)}
+\* coder reuse: three jobs run back to back on ONE coder object that is initialised again before each job
+\* (the first one is sometimes abandoned in the middle); each job must come out as on a new coder
+ReuseJob(a, e, j) ==
+    [kind |-> "R", arch |-> a, enc |-> e, abandon |-> (j % 3 = 0),
+     subs |-> [k \in 1..3 |-> [off |-> Pick(SetToSeq(Offsets(a)), j + k + Seed), n |-> BaseLen(a) + ((j * 5 + k * 11 + Seed) % 23),
+                               seed |-> Seed * 29 + j * 13 + k * 1009 + (IF e THEN 0 ELSE 7000)]]]
+DeltaReuseJob(e, j) ==
+    [kind |-> "R", arch |-> "delta", enc |-> e, abandon |-> (j % 3 = 0),
+     subs |-> [k \in 1..3 |-> [dist |-> Pick(SetToSeq(DeltaDists), j * 3 + k + Seed), n |-> 3 + ((j * 37 + k * 101 + Seed) % 300),
+                               seed |-> Seed * 31 + j * 17 + k * 2003]]]
+\* runs the sub-jobs through the machines, threading the coder state through Reinit
+ReuseEval(j) ==
+    FoldLeft(LAMBDA acc, k :
+               LET sub  == j.subs[k]
+                   part == j.abandon /\ k = 1
+                   x    == IF j.arch = "delta" THEN Raw("x86", sub.n, sub.seed, 0)
+                           ELSE LET raw == Sample(j.arch, sub.n, sub.seed, 0)
+                                IN IF j.enc THEN raw ELSE Stream(j.arch, TRUE, sub.off, raw)
+                   feed == IF part THEN Len(x) \div 2 ELSE Len(x)
+               IN IF j.arch = "delta"
+                  THEN LET s0 == IF k = 1 THEN DeltaInit(sub.dist) ELSE DeltaReinit(acc[1], sub.dist)
+                           r  == DeltaChunk(j.enc, s0, SubSeq(x, 1, feed))
+                       IN <<r[1], Append(acc[2], [data |-> x, feed |-> feed, expect |-> r[2], dist |-> sub.dist, off |-> <<0, 0>>])>>
+                  ELSE LET s0 == IF k = 1 THEN ScInit(j.arch, sub.off) ELSE ScReinit(acc[1], j.arch, sub.off)
+                           r  == Call(j.arch, j.enc, s0, SubSeq(x, 1, feed), 100000, ~part)
+                       IN <<r.s, Append(acc[2], [data |-> x, feed |-> feed, expect |-> r.out, dist |-> 0, off |-> sub.off])>>,
+             <<<<>>, <<>>>>, <<1, 2, 3>>)[2]
+
 Jobs ==
     {SampleJob(a, e, j) : a \in Archs, e \in BOOLEAN, j \in 1..NSamples}
     \cup {[kind |-> "S", arch |-> "arm64", enc |-> e, off |-> o, gate |-> TRUE, pre |-> ~e] : e \in BOOLEAN, o \in Offsets("arm64")}
@@ -37,6 +66,8 @@ Jobs ==
     \cup {PairJob(e, d, m1, m2, op2, fill) : e \in BOOLEAN, d \in 0..6, m1 \in PairMs, m2 \in PairMs, op2 \in {232, 233}, fill \in {0, 255}}
     \cup UNION {{[kind |-> "I", arch |-> a, enc |-> e, off |-> o] : e \in BOOLEAN, o \in InitOffs(a)} : a \in Archs}
     \cup {[kind |-> "D", dist |-> d, enc |-> e, n |-> n, seed |-> Seed + d + n] : d \in DeltaDists, e \in BOOLEAN, n \in DeltaLens}
+    \cup {ReuseJob(a, e, j) : a \in Archs, e \in BOOLEAN, j \in 1..NReuse}
+    \cup {DeltaReuseJob(e, j) : e \in BOOLEAN, j \in 1..(3 * NReuse)}
     \cup {[kind |-> "J", type |-> t, dist |-> d] : t \in {0, 1}, d \in {0, 1, 2, 255, 256, 257, 1000}}
 
 AlignDown(a, o) == LET al == Alignment(a) IN <<o[1] - (o[1] % al), o[2]>>
@@ -58,6 +89,7 @@ Eval(j) ==
                r == DeltaChunk(j.enc, DeltaInit(j.dist), x)[2]
            IN [data |-> x, expect |-> r, back |-> DeltaChunk(~j.enc, DeltaInit(j.dist), r)[2],
                def |-> IF j.enc THEN DeltaEncDef(x, j.dist) ELSE DeltaDecDef(x, j.dist)]
+      [] j.kind = "R" -> [subs |-> ReuseEval(j)]
       [] j.kind = "J" -> [ret |-> IF DeltaOptionsOk(j.type, j.dist) THEN "OK" ELSE "OPTIONS_ERROR"]
 
 GInit == job \in Jobs /\ res = <<>>
